@@ -93,6 +93,10 @@ pub trait Job {
     fn capacity_knob(&self) -> Option<u32> {
         None
     }
+    /// only every n-th atomic operation of the library is a real scheduling point
+    fn yield_every(&self) -> u32 {
+        1
+    }
 }
 
 #[derive(Default, Debug, Clone)]
@@ -162,6 +166,7 @@ fn begin_execution(job: &dyn Job, cfg: &SchedCfg) {
         s.step_cost = cfg.step_cost_ns;
         s.p_timer_ppm = cfg.p_timer_ppm;
         s.step_cap = cfg.step_cap;
+        s.yield_every = job.yield_every();
         s.shim_rng = SplitMix::derive(cfg.shim_seed, 0x5111);
         s.check_property = *CHECK_PROPERTY.lock().unwrap();
     });
@@ -336,6 +341,12 @@ pub fn install_quiet_panic_hook() {
     std::panic::set_hook(Box::new(|info| {
         // keep the location of the last panic for crash reports; print nothing
         let loc = info.location().map(|l| format!("{}:{}", l.file(), l.line())).unwrap_or_default();
+        let msg = info.payload().downcast_ref::<&str>().map(|s| s.to_string()).or_else(|| info.payload().downcast_ref::<String>().cloned()).unwrap_or_default();
+        if msg.starts_with("misaligned pointer dereference") || msg.starts_with("unsafe precondition") || msg.starts_with("null pointer dereference") {
+            // debug-build UB checks do not unwind: the process is about to abort and this is the
+            // only chance to say why
+            eprintln!("non-unwinding panic at {loc}: {msg}");
+        }
         // the first panic of a burst is the cause; later ones are fallout
         LAST_PANIC_AT.with(|l| {
             let mut l = l.borrow_mut();
